@@ -46,6 +46,7 @@ import (
 
 	"github.com/obolnetwork/charon/core"
 	"github.com/obolnetwork/charon/core/aggsigdb"
+	"github.com/obolnetwork/charon/core/bcast"
 	cqbft "github.com/obolnetwork/charon/core/consensus/qbft"
 	"github.com/obolnetwork/charon/core/dutydb"
 	"github.com/obolnetwork/charon/core/parsigdb"
@@ -139,6 +140,12 @@ func (s *sim) sigEpochDomain(sd core.SignedData) (signing.DomainName, eth2p0.Epo
 		return signing.DomainBeaconAttester, data.Target.Epoch, true
 	case core.SignedSyncMessage:
 		return signing.DomainSyncCommittee, eth2p0.Epoch(uint64(x.Slot) / s.spe), true
+	case core.SignedVoluntaryExit:
+		if x.Message == nil {
+			return "", 0, false
+		}
+
+		return signing.DomainExit, x.Message.Epoch, true
 	default:
 		return "", 0, false
 	}
@@ -440,7 +447,7 @@ type node struct {
 	ctx     context.Context
 	cancel  context.CancelFunc
 	psx     *stubParSigEx
-	bc      *stubBcast
+	bc      core.Broadcaster // the REAL core/bcast Broadcaster over a recording beacon mock
 	events  []event
 	decided map[core.Duty]bool
 	cand    int // candidate index this node's beacon node serves
@@ -454,31 +461,45 @@ type output struct {
 	root  string
 }
 
+// bobs is one object handed to the beacon node by a node's real Broadcaster.
+type bobs struct {
+	node int
+	kind string // att | sync | exit
+	at   uint64 // slot (att, sync) or epoch (exit)
+	val  eth2p0.ValidatorIndex
+	root string
+}
+
 type sim struct {
-	w      *world
-	bm     beaconmock.Mock
-	spe    uint64
-	real   bool
-	evMu   sync.Mutex
-	net    *fakeNet
-	decEv  []decideEv
-	wg     sync.WaitGroup
-	r      *rand.Rand
-	res    *Result
-	ctx    context.Context
-	nodes  []*node
-	vals   []valKeys
-	pool   []released
-	outs   []output
-	roots  map[string]int
-	tags   map[string]int
-	keyIDs map[string]int
-	klass  map[string]bool // json of ParSignedData+pubkey -> genuine
-	aggd   map[string]bool // node/key -> has aggregated
-	bypass bool
-	verify func(context.Context, core.Duty, core.PubKey, core.ParSignedData) error
-	duties []core.Duty
-	byzSet map[int]bool
+	w        *world
+	sameComm bool // all validators attest in ONE committee of the slot (else one committee each)
+	legacy   bool // peers are on versions whose partial attestations do not carry the validator index
+	vcDown   map[int]bool
+	attSlot  uint64
+	beacon   []bobs
+	bm       beaconmock.Mock
+	spe      uint64
+	real     bool
+	evMu     sync.Mutex
+	net      *fakeNet
+	decEv    []decideEv
+	wg       sync.WaitGroup
+	r        *rand.Rand
+	res      *Result
+	ctx      context.Context
+	nodes    []*node
+	vals     []valKeys
+	pool     []released
+	outs     []output
+	roots    map[string]int
+	tags     map[string]int
+	keyIDs   map[string]int
+	klass    map[string]bool // json of ParSignedData+pubkey -> genuine
+	aggd     map[string]bool // node/key -> has aggregated
+	bypass   bool
+	verify   func(context.Context, core.Duty, core.PubKey, core.ParSignedData) error
+	duties   []core.Duty
+	byzSet   map[int]bool
 }
 
 func (s *sim) stat(k string) { s.res.Stats[k]++ }
@@ -667,6 +688,9 @@ func (s *sim) harvest(nd *node) {
 			s.hit("aggsigdb-mismatch", "node %d: AggSigDB.Store refused a second, different object for %v", nd.idx, e.duty)
 		}
 		for _, pk := range sortedKeys(e.signed) {
+			if va, ok := e.signed[pk].(core.VersionedAttestation); ok && e.kind == "bcast" && va.ValidatorIndex == nil {
+				s.stat("bcast_input_att_without_validator_index") // the broadcaster's index fallback runs
+			}
 			rh := s.checkOutput(nd.idx, e.kind, e.duty, pk, e.signed[pk])
 			k := e.duty.String() + "/" + string(pk)
 			if outs[k] == nil {
@@ -725,9 +749,19 @@ func attData(slot uint64, spe uint64, cand int) eth2p0.AttestationData {
 }
 
 func (s *sim) attDuty(v valKeys, slot uint64) eth2v1.AttesterDuty {
+	comm, pos := eth2p0.CommitteeIndex(v.valIdx), uint64(3)
+	if s.sameComm {
+		comm = 1
+		for i, x := range s.vals {
+			if x.valIdx == v.valIdx {
+				pos = uint64(i)
+			}
+		}
+	}
+
 	return eth2v1.AttesterDuty{
 		PubKey: v.eth2pk, Slot: eth2p0.Slot(slot), ValidatorIndex: v.valIdx,
-		CommitteeIndex: eth2p0.CommitteeIndex(v.valIdx), CommitteeLength: 8, CommitteesAtSlot: 64, ValidatorCommitteeIndex: 3,
+		CommitteeIndex: comm, CommitteeLength: 8, CommitteesAtSlot: 64, ValidatorCommitteeIndex: pos,
 	}
 }
 
@@ -842,9 +876,22 @@ func (s *sim) build(n, nvals int, byz []int, v2 bool) {
 			if err != nil {
 				panic(err)
 			}
+			if s.legacy && d.Type == core.DutyAttester {
+				// peers on v1.3.0/v1.3.1/v1.4.0/v1.4.1: the validator index is not sent over the wire
+				for pk, p := range back {
+					if va, ok := p.SignedData.(core.VersionedAttestation); ok {
+						va.ValidatorIndex = nil
+						p.SignedData = va
+						back[pk] = p
+					}
+				}
+			}
 			s.pool = append(s.pool, released{from: ndc.idx, duty: d, set: back})
 		}}
-		nd.bc = &stubBcast{out: func(core.Duty, core.SignedDataSet) {}}
+		nd.bc, err = bcast.New(s.ctx, s.beaconFor(ndc))
+		if err != nil {
+			panic(infraErr{err})
+		}
 		var cons core.Consensus = nd.cons
 		tr := recTracker{ev: &nd.events, mu: &s.evMu}
 		if s.real {
@@ -855,6 +902,150 @@ func (s *sim) build(n, nvals int, byz []int, v2 bool) {
 		}
 		core.Wire(nd.sched, nd.fetch, cons, nd.dutyDB, nd.vapi, nd.psdb, nd.psx, nd.agg, nd.asdb, nd.bc,
 			core.WithTracing(), core.WithTracking(tr, nopInclusion{}))
+	}
+}
+
+// beaconFor returns the beacon node of nd's Broadcaster: the shared beacon mock with the attester
+// duties of this scenario and with recording submission endpoints. Everything the real core/bcast
+// Broadcaster hands to the beacon node passes the monitor below.
+func (s *sim) beaconFor(nd *node) beaconmock.Mock {
+	bn := s.bm
+	bn.AttesterDutiesFunc = func(_ context.Context, epoch eth2p0.Epoch, idxs []eth2p0.ValidatorIndex) ([]*eth2v1.AttesterDuty, error) {
+		var out []*eth2v1.AttesterDuty
+		if uint64(epoch) != s.attSlot/s.spe {
+			return out, nil
+		}
+		for _, v := range s.vals {
+			for _, i := range idxs {
+				if i == v.valIdx {
+					d := s.attDuty(v, s.attSlot)
+					out = append(out, &d)
+				}
+			}
+		}
+
+		return out, nil
+	}
+	bn.SubmitAttestationsFunc = func(_ context.Context, opts *eth2api.SubmitAttestationsOpts) error {
+		for _, a := range opts.Attestations {
+			s.beaconAtt(nd.idx, a)
+		}
+
+		return nil
+	}
+	bn.SubmitSyncCommitteeMessagesFunc = func(_ context.Context, msgs []*altair.SyncCommitteeMessage) error {
+		for _, m := range msgs {
+			s.beaconObj(nd.idx, "sync", uint64(m.Slot), m.ValidatorIndex, core.NewSignedSyncMessage(m))
+		}
+
+		return nil
+	}
+	bn.SubmitVoluntaryExitFunc = func(_ context.Context, e *eth2p0.SignedVoluntaryExit) error {
+		s.beaconObj(nd.idx, "exit", uint64(e.Message.Epoch), e.Message.ValidatorIndex, core.NewSignedVoluntaryExit(e))
+
+		return nil
+	}
+
+	return bn
+}
+
+func (s *sim) valByIdx(i eth2p0.ValidatorIndex) (valKeys, bool) {
+	for _, v := range s.vals {
+		if v.valIdx == i {
+			return v, true
+		}
+	}
+
+	return valKeys{}, false
+}
+
+// beaconObj: an object naming validator val reached the beacon node. It must carry that validator's
+// group signature over its own signing root, and all objects for one duty and validator have one root.
+func (s *sim) beaconObj(nd int, kind string, at uint64, val eth2p0.ValidatorIndex, sd core.SignedData) {
+	s.stat("beacon_submissions")
+	root, err := sd.MessageRoot()
+	if err != nil {
+		s.hit("beacon-no-root", "node %d handed the beacon node a %s object without a message root: %v", nd, kind, err)
+		return
+	}
+	rh := hex.EncodeToString(root[:])
+	v, ok := s.valByIdx(val)
+	if !ok {
+		s.hit("beacon-unknown-validator", "node %d handed the beacon node a %s object naming validator %d, which is not a cluster validator", nd, kind, val)
+		return
+	}
+	if !s.verifies(sd, v.group) {
+		s.hit("beacon-invalid-signature", "node %d handed the beacon node a %s object (slot/epoch %d) naming validator %d whose signature does not verify under that validator's group key", nd, kind, at, val)
+	}
+	for _, o := range s.beacon {
+		if o.kind == kind && o.at == at && o.val == val && o.root != rh {
+			s.hit("beacon-two-roots", "%s slot/epoch %d validator %d: node %d submitted root %s, node %d submitted root %s", kind, at, val, o.node, o.root[:32], nd, rh[:32])
+			break
+		}
+	}
+	s.beacon = append(s.beacon, bobs{node: nd, kind: kind, at: at, val: val, root: rh})
+}
+
+// beaconAtt: an attestation names its validator twice, by the validator index (electra+) and by
+// committee bits + aggregation bit; both must name the same cluster validator.
+func (s *sim) beaconAtt(nd int, a *eth2spec.VersionedAttestation) {
+	data, err := a.Data()
+	if err != nil {
+		s.hit("beacon-no-root", "node %d submitted an attestation without data: %v", nd, err)
+		return
+	}
+	var byBits *valKeys
+	comm, err1 := a.CommitteeIndex()
+	bits, err2 := a.AggregationBits()
+	if err1 == nil && err2 == nil && len(bits.BitIndices()) == 1 {
+		pos := uint64(bits.BitIndices()[0])
+		for i := range s.vals {
+			d := s.attDuty(s.vals[i], uint64(data.Slot))
+			if d.CommitteeIndex == comm && d.ValidatorCommitteeIndex == pos {
+				byBits = &s.vals[i]
+			}
+		}
+	}
+	wrap, err := core.NewVersionedAttestation(a)
+	if err != nil {
+		s.hit("beacon-no-root", "node %d submitted a malformed attestation: %v", nd, err)
+		return
+	}
+	switch {
+	case a.ValidatorIndex != nil:
+		if byBits != nil && byBits.valIdx != *a.ValidatorIndex {
+			s.hit("beacon-attestation-names-two-validators", "node %d submitted an attestation for slot %d with validator index %d whose committee/aggregation bits are validator %d's", nd, data.Slot, *a.ValidatorIndex, byBits.valIdx)
+		}
+		s.beaconObj(nd, "att", uint64(data.Slot), *a.ValidatorIndex, wrap)
+	case byBits != nil:
+		s.stat("beacon_att_without_index")
+		s.beaconObj(nd, "att", uint64(data.Slot), byBits.valIdx, wrap)
+	default:
+		s.hit("beacon-unknown-validator", "node %d submitted an attestation for slot %d that names no cluster validator", nd, data.Slot)
+	}
+}
+
+func (s *sim) signExit(v valKeys, share tbls.PrivateKey, epoch eth2p0.Epoch) *eth2p0.SignedVoluntaryExit {
+	msg := &eth2p0.VoluntaryExit{Epoch: epoch, ValidatorIndex: v.valIdx}
+	root, err := msg.HashTreeRoot()
+	if err != nil {
+		panic(err)
+	}
+	sd := s.sigData(signing.DomainExit, epoch, root)
+	sig, err := tbls.Sign(share, sd[:])
+	if err != nil {
+		panic(err)
+	}
+
+	return &eth2p0.SignedVoluntaryExit{Message: msg, Signature: eth2p0.BLSSignature(sig)}
+}
+
+// actVCExit: the validator client submits a partially signed voluntary exit per validator.
+func (s *sim) actVCExit(nd *node, d core.Duty) {
+	for _, v := range s.vals {
+		e := s.signExit(v, v.shares[nd.idx+1], eth2p0.Epoch(d.Slot/s.spe))
+		err := nd.vapi.SubmitVoluntaryExit(s.ctx, e)
+		s.finishSign(nd, d, core.ParSignedDataSet{v.pubkey: core.NewPartialSignedVoluntaryExit(e, nd.idx+1)}, err)
 	}
 }
 
@@ -909,7 +1100,7 @@ func (s *sim) actVCAttest(nd *node, d core.Duty, vals []valKeys) {
 	set := core.ParSignedDataSet{}
 	for _, v := range vals {
 		ctx, cancel := context.WithTimeout(s.ctx, 5*time.Second*waitScale)
-		resp, err := nd.vapi.AttestationData(ctx, &eth2api.AttestationDataOpts{Slot: eth2p0.Slot(d.Slot), CommitteeIndex: eth2p0.CommitteeIndex(v.valIdx)})
+		resp, err := nd.vapi.AttestationData(ctx, &eth2api.AttestationDataOpts{Slot: eth2p0.Slot(d.Slot), CommitteeIndex: s.attDuty(v, d.Slot).CommitteeIndex})
 		cancel()
 		if err != nil {
 			s.logf("vc node %d %v: AttestationData: %v", nd.idx, d, err)
@@ -1052,6 +1243,11 @@ func (s *sim) byzMake(b int, d core.Duty, decidedCand int) (core.ParSignedDataSe
 				panic(err)
 			}
 			set[v.pubkey] = p
+		} else if d.Type == core.DutyExit {
+			if len(set) > 0 {
+				continue // exits travel one validator per set
+			}
+			set[v.pubkey] = core.NewPartialSignedVoluntaryExit(s.signExit(v, share, eth2p0.Epoch(d.Slot/s.spe)), idx)
 		} else {
 			m := s.signSync(v, share, d.Slot, headRoot(rootSel, d.Slot))
 			set[v.pubkey] = core.NewPartialSignedSyncMessage(m, idx)
@@ -1174,6 +1370,17 @@ func runScenario(w *world, sp Spec) (res *Result) {
 		if f > 0 {
 			nbyz = r.Intn(f + 1)
 		}
+	case "legacyidx":
+		// peers' partial attestations do not carry the validator index and one node's client is down: that
+		// node reaches the threshold from peers only, for >= 2 validators of one slot in one set, so its
+		// Broadcaster has to resolve the validator indices itself (core/bcast index fallback)
+		if nvals < 2 {
+			nvals = 2 + r.Intn(maxVals-1)
+		}
+		divergent = r.Intn(2) == 0
+		if f > 0 {
+			nbyz = r.Intn(f + 1)
+		}
 	case "real":
 		// every node runs the real QBFT consensus component; faulty nodes (<= f) are either Byzantine
 		// (silent in consensus, injecting partial signatures later) or crash / never start
@@ -1203,6 +1410,16 @@ func runScenario(w *world, sp Spec) (res *Result) {
 		bs = append(bs, fmt.Sprint(b))
 	}
 	res.Cfg = fmt.Sprintf("mkCfg %d %d [%s] Nat.even", n, quorum(n), strings.Join(bs, "; "))
+	s.sameComm = r.Intn(2) == 0
+	s.legacy = sp.Kind == "legacyidx" || (sp.Kind != "happy" && r.Intn(5) < 2)
+	s.vcDown = map[int]bool{}
+	if s.legacy {
+		for i := 0; i < n; i++ {
+			s.vcDown[i] = sp.Kind != "legacyidx" && r.Intn(3) == 0 // this node's client never attests: thresholds come from peers' partials only
+		}
+		res.Stats["legacy_peer_runs"] = 1
+	}
+	s.attSlot = slotBase
 	s.build(n, nvals, byz, res.V2)
 
 	attSlot := uint64(slotBase)
@@ -1212,7 +1429,9 @@ func runScenario(w *world, sp Spec) (res *Result) {
 	}
 	att := core.NewAttesterDuty(attSlot)
 	syn := core.NewSyncMessageDuty(attSlot + 1)
-	s.duties = []core.Duty{att, syn}
+	exit := core.NewVoluntaryExit(w.spe * (attSlot / w.spe))
+	s.attSlot = attSlot
+	s.duties = []core.Duty{att, syn, exit}
 	if sp.Kind == "overbound" {
 		s.runOverbound(n, byz)
 		res.Outputs = len(s.outs)
@@ -1262,7 +1481,33 @@ func runScenario(w *world, sp Spec) (res *Result) {
 	triggered := map[int]bool{}
 	attSigned := map[int]bool{}
 	synSigned := map[int]int{}
+	exitSigned := map[int]bool{}
 	deliveredTo := map[string]int{}
+	if sp.Kind == "legacyidx" && len(honest) > 0 {
+		// prologue: everybody decides, every client but the first node's attests (all validators in one
+		// submission), and everything released reaches the first node
+		first := honest[0]
+		s.vcDown[first.idx] = true
+		for _, nd := range honest {
+			triggered[nd.idx] = true
+			s.actTrigger(nd, att)
+			if decidedSet == nil {
+				decidedCand, decidedSet = nd.cand, nd.cons.proposed[att]
+			}
+		}
+		for _, nd := range honest {
+			if decidedSet != nil {
+				s.actDecide(nd, att, decidedSet)
+			}
+			if nd != first && nd.decided[att] {
+				attSigned[nd.idx] = true
+				s.actVCAttest(nd, att, s.vals)
+			}
+		}
+		for _, m := range append([]released(nil), s.pool...) {
+			s.actDeliver(first, m.duty, m.set, "LDeliver", false)
+		}
+	}
 	steps := 60 + r.Intn(120)
 	for step := 0; step < steps; step++ {
 		var alive []*node
@@ -1309,6 +1554,9 @@ func runScenario(w *world, sp Spec) (res *Result) {
 				s.actDecide(nd, att, decidedSet)
 			}
 		case c < 30: // validator client attests
+			if s.vcDown[nd.idx] {
+				continue
+			}
 			if nd.decided[att] && !attSigned[nd.idx] {
 				attSigned[nd.idx] = true
 				if r.Intn(3) == 0 && len(s.vals) > 1 { // one validator at a time
@@ -1321,6 +1569,11 @@ func runScenario(w *world, sp Spec) (res *Result) {
 			} else if nd.decided[att] && r.Intn(4) == 0 { // the client re-submits the same attestation
 				s.actVCAttest(nd, att, s.vals)
 				s.stat("resubmits")
+			}
+		case c < 40 && r.Intn(4) == 0: // validator client submits voluntary exits
+			if !exitSigned[nd.idx] {
+				exitSigned[nd.idx] = true
+				s.actVCExit(nd, exit)
 			}
 		case c < 40: // validator client signs a sync committee message
 			head := 0
@@ -1404,7 +1657,7 @@ func runScenario(w *world, sp Spec) (res *Result) {
 	return res
 }
 
-var kinds = []string{"happy", "divergent", "byzantine", "byzantine", "garbage", "lossy", "equivvc"}
+var kinds = []string{"happy", "divergent", "byzantine", "byzantine", "garbage", "lossy", "equivvc", "legacyidx"}
 
 // TestGen runs the scenarios and writes pipeline_runs.json.
 func TestGen(t *testing.T) {
